@@ -210,4 +210,4 @@ mod tests {
 
 #[cfg(kani)]
 #[path = "/verif/hooks/vtx/player.rs"]
-mod verif_hooks;
+pub(crate) mod verif_hooks;
